@@ -582,7 +582,7 @@ Definition zero_cost_pod : pod :=
 Definition base_labels (pl : string) : smap := [("ct", "on-demand"); ("it", "it-a"); ("np", pl); ("zone", "z1")].
 Definition base_node_labels (pl : string) : smap :=
   [("ct", "on-demand"); ("init", "true"); ("it", "it-a"); ("np", pl); ("reg", "true"); ("zone", "z1")].
-Definition pl_wempty : pool := mkPool "wempty" true (Some ["it-a"]) false (Some 30000000000) "WhenEmpty".
+Definition pl_wempty : pool := mkPool "wempty" true (Some ["it-a"]) false (Some 30000000000) "WhenEmpty" None.
 Definition n_zero_cost : snode :=
   mkSNode "n1" (Some (mkClaim (base_labels "wempty") [] false None (Some CTrue) (Some CTrue) false))
           (Some (mkNode (base_node_labels "wempty") [] false)) [zero_cost_pod] false 0.
@@ -630,7 +630,7 @@ Definition n_unregistered_dnd : snode :=
           (Some k_unregistered_dnd) [] false 0.
 Definition w_unregistered_dnd : world :=
   mkWorld 0 10000000000 FNone
-    [mkPool "dyn" true (Some ["it-a"]) false (Some 30000000000) "WhenEmptyOrUnderutilized"] []
+    [mkPool "dyn" true (Some ["it-a"]) false (Some 30000000000) "WhenEmptyOrUnderutilized" None] []
     [n_unregistered_dnd] [OTick 100000000000].
 
 Lemma node_dnd_literal_refuted_l :
@@ -655,8 +655,8 @@ Qed.
 (* ------------------------------------------------------------------ non-vacuity helpers *)
 Definition w_example : world :=
   mkWorld 0 10000000000 FNone
-    [mkPool "dyn" true (Some ["it-a"]) false (Some 30000000000) "WhenEmptyOrUnderutilized";
-     mkPool "static" true (Some ["it-a"]) true None "WhenEmptyOrUnderutilized"]
+    [mkPool "dyn" true (Some ["it-a"]) false (Some 30000000000) "WhenEmptyOrUnderutilized" (Some 600000000000);
+     mkPool "static" true (Some ["it-a"]) true None "WhenEmptyOrUnderutilized" None]
     [mkPdb "default" "pdb1" (Some [("app", "p1")]) 0 false]
     [mkSNode "busy" (Some (mkClaim (base_labels "dyn") [] false None (Some CTrue) (Some CTrue) false))
              (Some (mkNode (base_node_labels "dyn") [] false))
@@ -664,6 +664,10 @@ Definition w_example : world :=
      mkSNode "idle" (Some (mkClaim (base_labels "dyn") [] false None (Some CTrue) None false))
              (Some (mkNode (base_node_labels "dyn") [] false)) [] false 0;
      mkSNode "guarded" (Some (mkClaim (base_labels "dyn") [] false None (Some CTrue) (Some CTrue) true))
+             (Some (mkNode (base_node_labels "dyn") [] false))
+             [mkPod "default" "p1" [("app", "p1")] "Running" false [("apps/v1", "ReplicaSet")] [] None (Some 0) [] None None] false 0;
+     (* same blocked pod, NodeClaim without a TGP although the pool template has one: protected from every method *)
+     mkSNode "unguarded" (Some (mkClaim (base_labels "dyn") [] false None (Some CTrue) (Some CTrue) false))
              (Some (mkNode (base_node_labels "dyn") [] false))
              [mkPod "default" "p1" [("app", "p1")] "Running" false [("apps/v1", "ReplicaSet")] [] None (Some 0) [] None None] false 0;
      mkSNode "fixed" (Some (mkClaim (base_labels "static") [] false None None (Some CTrue) false))
